@@ -523,6 +523,11 @@ impl World {
                             self.epoch += 1;
                             self.next_ts = None;
                             self.next_hash = None;
+                        } else if n == h {
+                            // a reorg to the current height runs the same pass (it is what cleans up after
+                            // a reorg that died half-way) and, like every reorg, commits
+                            self.committed = Some(n);
+                            self.snapshot = (self.recs.clone(), self.h);
                         }
                     }
                 }
